@@ -623,6 +623,31 @@ def handleRP (payload : String) : String :=
       (Json.mkObj [("rooms", toJson rooms), ("list", toJson (RM.sizeList sizes order rooms)),
         ("sound", toJson (RM.specSound sizes rooms poss)), ("nonempty", toJson (RM.specNonempty sizes poss))]).compress
 
+/-- `RS`: the C18 specification evaluated on what the REAL code listed (size lists, or kind names
+    together with the kinds of the rooms file) -/
+def handleRS (payload : String) : String :=
+  match Json.parse payload with
+  | .error e => s!"bad json {e}"
+  | .ok j =>
+    let sizes := (j.getObjValAs? (List Nat) "sizes").toOption.getD []
+    let rooms := (j.getObjValAs? (List Nat) "rooms").toOption.getD []
+    let listed := (j.getObjValAs? (List String) "listed").toOption.getD []
+    match (j.getObjVal? "kinds").toOption with
+    | some (.arr ks) =>
+      let kinds : List RM.Kind := ks.toList.map (fun k =>
+        { name := (k.getObjValAs? String "name").toOption.getD "", capacity := (k.getObjValAs? Nat "capacity").toOption.getD 0,
+          quantity := (k.getObjValAs? Nat "quantity").toOption.getD 0 })
+      let names : List (List String) := listed.map (fun s => if s == "" then [] else s.splitOn ", ")
+      let sound := (List.range sizes.length).all (fun c => (names.getD c []).all (fun nm =>
+        match kinds.find? (fun k => k.name == nm) with
+        | some k => decide (0 < k.quantity) && RM.usable sizes rooms c k.capacity
+        | none => false))
+      let nonempty := (List.range sizes.length).all (fun c => sizes.getD c 0 == 0 || !(names.getD c []).isEmpty)
+      s!"sound={sound} nonempty={nonempty}"
+    | _ =>
+      let l := listed.map parseNatCsv
+      s!"sound={RM.specSound sizes rooms l} nonempty={RM.specNonempty sizes l}"
+
 /-! ## SR / OS: simple-format reader + validation, output stage -/
 
 def handleSR (payload : String) : String :=
@@ -661,6 +686,7 @@ def dispatch (line : String) : String :=
     | "L" => handleL payload
     | "RL" => handleRL payload
     | "RP" => handleRP payload
+    | "RS" => handleRS payload
     | "SR" => handleSR payload
     | "OS" => handleOS payload
     | _ => "bad tag"
